@@ -672,8 +672,8 @@ def correspond_lift(ctx):
     out = ctx.impl('c15_lift_run', {'cases': cases + ucases}, timeout=900)['out']
     eout, uout = out[:len(cases)], out[len(cases):]
 
-    items = ['([%s], %s, %s, %s)' % ('; '.join(cnum(v) for v in k['env']), coq_expr(k['e'], False), coq_expr(k['e'], True),
-                                     coq_den(o)) for k, o in zip(cases, eout)]
+    items = ['(([%s] : list num), %s, %s, %s)' % ('; '.join(cnum(v) for v in k['env']), coq_expr(k['e'], False),
+                                                  coq_expr(k['e'], True), coq_den(o)) for k, o in zip(cases, eout)]
     codes, errs = run_codes(ctx, 'lift', items, 'Eval vm_compute in map code cases.', shard=150)
     uitems = ['(%s, %s)' % (coq_util(k), coq_den(o)) for k, o in zip(ucases, uout)]
     ucodes, uerrs = run_codes(ctx, 'lutil', uitems, 'Eval vm_compute in map ucode cases.', shard=300)
